@@ -17,12 +17,15 @@
                  _active_exact, _dispatch_history, _disable_window_reachable, _retry_bounded);
   * ∀-continuation — about `run w ops` from any world meeting a stated invariant
                  (c11_disable_window, _failover_elsewhere, _static);
+  * key builder — gw_status_get_counter() as modelled byte for byte in Model/GwStat.lean, for all host ids,
+                 proc ids and tags (c11_stat_key_inj, _stat_entry_inj, _stat_entry_case_alias, _stat_key_dotted_alias);
   * per call   — what one C function does on an arbitrary world (c11_only_available,
                  _dispatch_running, _lc_min, _rr_fair, _hash_max, _connect_failure_disables,
                  _reenable_after, _trigger_settles, _retry_budget, _giveup_5xx,
                  _giveup_502_incomplete, _timeout_releases).  These are specifications of a decision, not of a history.
 -/
 import LtVerif.Proofs.GwBound
+import LtVerif.Proofs.GwStat
 namespace LtVerif.C11
 open LtVerif LtVerif.Gw
 
@@ -88,6 +91,46 @@ theorem c11_stats_alias_witness :
   refine ⟨rfl, ?_, by decide, by decide, by decide, by decide⟩
   have h0 : Acct none (initWorld 0 false 2 [⟨1, 1, 0, 0, 0, 'r'⟩, ⟨1, 1, 0, 0, 0, 'r'⟩]) := acct_init _ _ _ _
   exact acct_run _ ⟨h0.hostLoad, h0.hostStat, h0.procLoad, h0.procStat, h0.global, h0.fds, h0.ghost, h0.slots, h0.range⟩
+
+/-! ## the statistics key (gw_status_get_counter): what `LabelInj` stands for in the real key space -/
+
+/-- **c11_stat_key_inj**: for ALL host ids without a '.', all proc ids and all tags of the shape
+    gw_backend.c uses (a dot, then a non-digit: ".load" ".connected" ".died" ".overloaded"
+    ".disabled"), the key "gw.backend.<id>[.<n>]<tag>" built by gw_status_get_counter()
+    determines host id, proc (or host-level) and tag. -/
+theorem c11_stat_key_inj (id id' : Bytes) (pr pr' : Option Nat) (t t' : Bytes)
+    (hid : GwStat.dot ∉ id) (hid' : GwStat.dot ∉ id') (ht : GwStat.TagOk t) (ht' : GwStat.TagOk t')
+    (h : GwStat.statKey id pr t = GwStat.statKey id' pr' t') : id = id' ∧ pr = pr' ∧ t = t' :=
+  GwStat.statKey_inj hid hid' ht ht' h
+
+/-- **c11_stat_entry_inj**: … and the plugin_stats ENTRY (array_get_int_ptr: equal length and equal after
+    folding A–Z to lower case, `sameEntry`) determines them up to letter case: two counters are one
+    entry only if they are the same counter (same proc or both host-level, same tag) of hosts whose ids
+    differ at most in letter case.  This is the side condition of c11_stats_exact_partial in the real key
+    space: the numeric `Host.label` of the world model stands for the case-folded host id. -/
+theorem c11_stat_entry_inj (id id' : Bytes) (pr pr' : Option Nat) (t t' : Bytes)
+    (hid : GwStat.dot ∉ id) (hid' : GwStat.dot ∉ id') (ht : t ∈ GwStat.tags) (ht' : t' ∈ GwStat.tags)
+    (h : GwStat.sameEntry (GwStat.statKey id pr t) (GwStat.statKey id' pr' t') = true) :
+    GwStat.lower id = GwStat.lower id' ∧ pr = pr' ∧ GwStat.lower t = GwStat.lower t' :=
+  GwStat.sameEntry_inj hid hid' (GwStat.tags_ok t ht) (GwStat.tags_ok t' ht') h
+
+/-- conversely ids that differ only in letter case DO share every entry (no hypothesis on dots) -/
+theorem c11_stat_entry_case_alias (id id' : Bytes) (pr : Option Nat) (t : Bytes)
+    (h : GwStat.lower id = GwStat.lower id') :
+    GwStat.sameEntry (GwStat.statKey id pr t) (GwStat.statKey id' pr t) = true :=
+  GwStat.sameEntry_of_fold h rfl
+
+/-- **c11_stat_key_dotted_alias**: the hypothesis "no '.' in the host id" cannot be dropped, in the
+    model as in the code (the harness finds the same int* for both): the host-level load entry
+    of a host named "a.1" IS the load entry of proc 1 of a host named "a" — distinct labels, one
+    counter.  (A variant of the known finding `statistics label shared by unlabeled hosts`.) -/
+theorem c11_stat_key_dotted_alias :
+    GwStat.statKey (B.ofString "a.1") none (B.ofString ".load") =
+      GwStat.statKey (B.ofString "a") (some 1) (B.ofString ".load") ∧
+    GwStat.lower (B.ofString "a.1") ≠ GwStat.lower (B.ofString "a") := by
+  constructor
+  · decide
+  · decide
 
 /-- never negative; zero when idle (no request context left) -/
 theorem c11_load_nonneg_zero_idle (balance : Nat) (wkr : Bool) (nslots : Nat) (specs : List HostSpec)
@@ -537,5 +580,16 @@ example : (run w0 [.arrive 0 1 { upg := ['c'] }]).slot 0 = none ∧
     ((run w0 [.arrive 0 1 { upg := ['c'] }]).host 0).load = 0 ∧
     (run w0 [.arrive 0 1 { upg := ['c'] }]).log.any
       (fun e => match e with | Ev.fin 0 405 false false false => true | _ => false) = true := by decide
+
+-- c11_stat_key_inj / c11_stat_entry_inj / c11_stat_entry_case_alias: the labels of the harness pools ("h0", "h1", the empty id of
+-- an anonymous list) are dot-free, every tag of gw_backend.c has the required shape, and the key
+-- is the text lighttpd uses
+example : GwStat.dot ∉ B.ofString "h0" ∧ GwStat.dot ∉ ([] : Bytes) ∧ B.ofString ".load" ∈ GwStat.tags ∧
+    GwStat.TagOk (B.ofString ".connected") ∧
+    GwStat.statKey (B.ofString "h0") (some 10) (B.ofString ".load") = B.ofString "gw.backend.h0.10.load" ∧
+    GwStat.statKey [] none (B.ofString ".load") = B.ofString "gw.backend..load" ∧
+    GwStat.lower (B.ofString "H0") = GwStat.lower (B.ofString "h0") ∧
+    GwStat.sameEntry (B.ofString "gw.backend.H0.load") (B.ofString "gw.backend.h0.load") = true := by
+  refine ⟨by decide, by decide, by decide, GwStat.tags_ok _ (by decide), by decide, by decide, by decide, by decide⟩
 
 end LtVerif.C11
